@@ -209,8 +209,8 @@ static std::vector<MV> g_vals;
 static const char* START_DOCS[] = {"{}", "[]", R"({"a":[1,2],"b":{"c":1}})", R"([[1],{"a":1}])"};
 
 static void init_alphabet() {
-    static const char* TOK[] = {"a", "b", "c", "0", "1", "2", "-", "01", "-1", "+1", "1e0", "", "a/b", "m~n", "\xc3\xa9", "18446744073709551616", "00"};
-    std::vector<std::string> toks(TOK, TOK + 17);
+    static const char* TOK[] = {"a", "b", "c", "0", "1", "2", "-", "01", "-1", "+1", "1e0", "", "a/b", "m~n", "\xc3\xa9", "18446744073709551616", "00", "-0"};
+    std::vector<std::string> toks(TOK, TOK + 18);
     g_ptrs.push_back(Ptr{"", true, {}});
     for (auto& a : toks) g_ptrs.push_back(Ptr{ref_pointer({a}), true, {a}});
     for (auto& a : toks) for (auto& b : toks) g_ptrs.push_back(Ptr{ref_pointer({a, b}), true, {a, b}});
